@@ -81,6 +81,7 @@ func (o *Out) write(dir, component string, seed int64, shardSize int) error {
 		var sb strings.Builder
 		sb.WriteString("From Sheens Require Import " + o.Require + ".\n")
 		sb.WriteString("Local Open Scope string_scope.\nLocal Open Scope Z_scope.\nLocal Open Scope list_scope.\n")
+		sb.WriteString(internDefs())
 		sb.WriteString("Definition cases : list " + o.CaseType + " := [\n")
 		for k := i; k < j; k++ {
 			sb.WriteString(" ")
